@@ -106,6 +106,16 @@ def execute(mod, case, log_on=False):
                 raise InvalidCase("decimal_prec")
             _decimal.setcontext(_decimal.Context(prec=dec_mode))
             sched.count("decimal_prec:%d" % dec_mode)
+            # ... and scikit-learn's global configuration (working_memory decides how pairwise computations are chunked)
+            try:
+                import sklearn as _sklearn
+                sk_mode = (case.get("config") or {}).get("sklearn_wm") or ("default", "default", "tiny")[(case.get("sched_seed", 0) >> 11) % 3]
+                if sk_mode not in ("default", "tiny"):
+                    raise InvalidCase("sklearn_wm")
+                _sklearn.set_config(working_memory=1024 if sk_mode == "default" else 0.0005)
+                sched.count("sklearn_working_memory:" + sk_mode)
+            except ImportError:
+                pass
             # the property module works on a private copy: whatever the code under test does to data handed to it,
             # the case (= the replay file) stays what was generated, so a re-run is the same experiment
             stats = mod.run_case(copy.deepcopy(case), sched)
